@@ -9,7 +9,8 @@ EXPECT = {"fix_stale_ptr": ("R-STALE", "stale:up"), "fix_clobber_order": ("R-CLO
           "fix_view_alias": ("R-CLOBBER", "view-alias:v:w"), "fix_view_local": None,
           "fix_size_exceeds": ("R-EXTENT", "size-exceeds-alloc:w"),
           "fix_alias_selected": None, "fix_alias_selected_bad": ("R-CLOBBER", "clobber:w:z"),
-          "fix_copy_halves": None, "fix_copy_shift_one": ("R-OVERLAP", "copy-asserts-separate:MPN_COPY")}
+          "fix_copy_halves": None, "fix_copy_shift_one": ("R-OVERLAP", "copy-asserts-separate:MPN_COPY"),
+          "fix_extent_clamp_store": ("R-EXTENT", "overrun-on-path:w"), "fix_extent_max_alloc": None}
 
 
 def run(prop="C05", tier="quick", rules=("R-STALE", "R-CLOBBER", "R-OVERLAP", "R-CONSTSRC")):
